@@ -133,6 +133,60 @@ def run(argv, env=None, stdin=None, timeout=WATCHDOG, rlimits=None, ignore_sigxf
         return Proc(None, dec(ex.stdout), dec(ex.stderr), True, time.time() - t0)
 
 
+def run_suspended(argv, env, event_log, pauses=(10.4,), marker='"ev":"deliver"', every=300, timeout=WATCHDOG, cwd=None):
+    """Runs the process and suspends it (SIGSTOP ... SIGCONT, what ^Z / a laptop lid / a frozen cgroup do to a long job) once the hook
+    event log shows that blocks are being delivered; further pauses follow after `every` more events. Wall-clock time passes for the
+    process while it does nothing, so code that depends on elapsed time (the progress report every 10 s) runs. Returns (Proc, pauses
+    that took effect while the process was demonstrably alive)."""
+    import tempfile
+    e = dict(os.environ)
+    e.pop("RUST_LOG", None)
+    e["RUST_BACKTRACE"] = "0"
+    e.update(env or {})
+    e["RBP_VERIF_LOG"] = event_log
+    if os.path.exists(event_log):
+        os.unlink(event_log)
+    fo, fe = tempfile.TemporaryFile(), tempfile.TemporaryFile()
+    t0 = time.time()
+    p = subprocess.Popen(argv, env=e, stdout=fo, stderr=fe, cwd=cwd)
+    hit = 0
+    seen_target = 1
+    try:
+        for pause in pauses:
+            while p.poll() is None and time.time() - t0 < timeout:
+                try:
+                    with open(event_log, "rb") as f:
+                        n = f.read().count(marker.encode())
+                except FileNotFoundError:
+                    n = 0
+                if n >= seen_target:
+                    seen_target = n + every
+                    break
+                time.sleep(0.0005)
+            if p.poll() is not None:
+                break
+            os.kill(p.pid, signal.SIGSTOP)
+            time.sleep(pause)
+            alive = p.poll() is None
+            os.kill(p.pid, signal.SIGCONT)
+            if alive:
+                hit += 1
+        try:
+            p.wait(timeout=max(1, timeout - (time.time() - t0)))
+            timed_out = False
+        except subprocess.TimeoutExpired:
+            p.kill()
+            p.wait()
+            timed_out = True
+    finally:
+        if p.poll() is None:
+            p.kill()
+    fo.seek(0)
+    fe.seek(0)
+    dec = lambda b: b.decode("utf-8", errors="replace")
+    return Proc(None if timed_out else p.returncode, dec(fo.read()), dec(fe.read()), timed_out, time.time() - t0), hit
+
+
 def eval_scripts(binary, items, chunk=20000, jobs=None):
     """items: list of (version_id:int, script:bytes). Returns list of (pattern, address|None, payload bytes|None)
     through the guarded script-eval tool mode (H4) of the binary."""
